@@ -55,32 +55,18 @@ class Model:
         self.Q = Q
         self.tasks, self.workers, self.facs = [], [], []
         self.wps, self.comps, self.teams = [], [], []
-        cls = BaseTask if plain else RankedTask
+        self.plain = plain
         for i, t in enumerate(cfg["tasks"], 1):
-            kw = dict(
-                name="t%d" % i,
-                ID="".join(["T", "%d" % i]),
-                default_work_amount=t["work"] / Q,
-                default_progress=t["prog"] / 4,
-                auto_task=t["auto"],
-                need_facility=t["needF"],
-                work_amount_progress_of_unit_step_time=t["rate"] / Q,
-                due_time=t["due"],
-                worker_priority_rule=RRULE[t["wrule"]],
-                facility_priority_rule=RRULE[t["frule"]],
-                workplace_priority_rule=PRULE[t["prule"]],
-            )
-            if t.get("sub"):
-                task = BaseSubProjectTask(**kw)
-            else:
-                task = cls(**kw)
-            task._verif_rank = t["rank"]
-            self.tasks.append(task)
+            self.tasks.append(self.make_task(i, t))
         for p, s, k in cfg["deps"]:
             self.tasks[s - 1].append_input_task(self.tasks[p - 1], task_dependency_mode=DEP[k])
         for i, c in enumerate(cfg["comps"], 1):
+            # "watch": tasks handed to the constructor - the component follows their states but
+            # the tasks get no target_component back-reference
+            watch = [self.tasks[k - 1] for k in c.get("watch", [])]
             self.comps.append(
-                BaseComponent("c%d" % i, ID="".join(["C", "%d" % i]), space_size=c["space"] / 2)
+                BaseComponent("c%d" % i, ID="".join(["C", "%d" % i]), space_size=c["space"] / 2,
+                              **({"targeted_task_list": watch} if watch else {}))
             )
         for i, c in enumerate(cfg["comps"], 1):
             for ch in c["children"]:
@@ -120,20 +106,7 @@ class Model:
         for j in range(2, len(self.wps) + 1):
             self.wps[j - 1].set_parent_workplace(self.wps[0])
         for i, w in enumerate(cfg["workers"], 1):
-            wk = BaseWorker(
-                "w%d" % i,
-                ID="".join(["W", "%d" % i]),
-                cost_per_time=float(w["cost"]),
-                solo_working=w["solo"],
-                absence_time_list=list(w["abs"]),
-                main_workplace_id=("".join(["P", "%d" % w["mainwp"]]) if w["mainwp"] else None),
-            )
-            wk.workamount_skill_mean_map = {
-                "t%d" % k: s / Q for k, s in enumerate(w["skill"], 1) if s >= 0
-            }
-            wk.facility_skill_map = {
-                "f%d" % k: float(s) for k, s in enumerate(w["fskill"], 1) if s >= 0
-            }
+            wk = self.make_worker(i, w)
             self.teams[w["team"] - 1].add_worker(wk)
             self.workers.append(wk)
         for i, t in enumerate(cfg["tasks"], 1):
@@ -156,6 +129,40 @@ class Model:
             organization=BaseOrganization(team_list=list(self.teams), workplace_list=list(self.wps)),
         )
         self.reindex()
+
+    def make_task(self, i, t):
+        Q = self.cfg["Q"]
+        cls = BaseTask if self.plain else RankedTask
+        kw = dict(
+            name="t%d" % i,
+            ID="".join(["T", "%d" % i]),
+            default_work_amount=t["work"] / Q,
+            default_progress=t["prog"] / 4,
+            auto_task=t["auto"],
+            need_facility=t["needF"],
+            work_amount_progress_of_unit_step_time=t["rate"] / Q,
+            due_time=t["due"],
+            worker_priority_rule=RRULE[t["wrule"]],
+            facility_priority_rule=RRULE[t["frule"]],
+            workplace_priority_rule=PRULE[t["prule"]],
+        )
+        task = BaseSubProjectTask(**kw) if t.get("sub") else cls(**kw)
+        task._verif_rank = t["rank"]
+        return task
+
+    def make_worker(self, i, w):
+        Q = self.cfg["Q"]
+        wk = BaseWorker(
+            "w%d" % i,
+            ID="".join(["W", "%d" % i]),
+            cost_per_time=float(w["cost"]),
+            solo_working=w["solo"],
+            absence_time_list=list(w["abs"]),
+            main_workplace_id=("".join(["P", "%d" % w["mainwp"]]) if w["mainwp"] else None),
+        )
+        wk.workamount_skill_mean_map = {"t%d" % k: s / Q for k, s in enumerate(w["skill"], 1) if s >= 0}
+        wk.facility_skill_map = {"f%d" % k: float(s) for k, s in enumerate(w["fskill"], 1) if s >= 0}
+        return wk
 
     def reindex(self):
         """(Re)build object -> 1-based index maps from the project as it is now."""
